@@ -117,11 +117,15 @@ def handle (st : St) (idx : Nat) (line : String) : St × String :=
       -- premise) and a message is written whole (C07: every size)
       let rd := (kv implToks "err").getD (implToks.headD "")
       let wr := (kv implToks "w").getD "-"
-      (st, emit idx impl { model := "err=ok w=ok",
+      let pd := (kv implToks "p").getD "-"
+      (st, emit idx impl { model := "err=ok w=ok p=ok",
                            fails := (if rd = "ok" then [] else
                              (if rd.startsWith "panic" ∨ rd.startsWith "crash" then ["C03:panic-reading-a-well-formed-message-after-the-buffer-length-was-changed"]
                               else ["C03:well-formed-message-rejected-after-the-buffer-length-was-changed"])) ++
-                            (if wr = "ok" then [] else ["C07:message-not-written-after-the-buffer-length-was-raised"]),
+                            (if wr = "ok" then [] else ["C07:message-not-written-after-the-buffer-length-was-raised"]) ++
+                            (if pd = "ok" then [] else
+                              ["C05:message-lost-by-a-reader-that-was-waiting-when-the-buffer-length-changed",
+                               "C03:panic-reading-a-well-formed-message-after-the-buffer-length-was-changed"]),
                            tags := [s!"buflen to={(kvNat rest "to").getD 0} body={(kvNat rest "body").getD 0}"] })
     | "resource" :: "retain" :: rest =>
       (st, emit idx impl (judgeRetain ((kvNat rest "msgs").getD 0) ((kvNat rest "per").getD 0) ((kvNat rest "g").getD 0) implToks))
@@ -277,6 +281,13 @@ def handle (st : St) (idx : Nat) (line : String) : St × String :=
     | "sctp" :: "serve" :: rest =>
       let fin := if kv rest "fin" = some "err" then Fin.err else Fin.eof
       (st, emit idx impl (judgeSctpServe dict fin ((kv rest "cn").getD "none") ((kv rest "chunks").getD "-") implToks))
+    | "alias" :: "twin" :: _ =>
+      -- two reads give two trees that share nothing (C06_owned: every value of a decoded message
+      -- is its own copy), so editing one in place leaves the other as it was
+      let implOut := " ".intercalate implToks
+      (st, emit idx impl { model := "twin=same len=ok",
+                           fails := if implOut = "twin=same len=ok" then [] else ["C06:message-changed-by-editing-another-message-with-the-same-group"],
+                           tags := ["twin"] })
     | "alias" :: "leaf" :: rest =>
       (match (kv rest "p").bind (fun x => fromHex (x.drop 1).toString) with
        | some p => (st, emit idx impl (judgeAliasLeaf ((kvNat rest "t").getD 0) p implToks))
